@@ -82,6 +82,8 @@ type findingsFile struct {
 	Fixed    []string  `json:"fixed"`
 }
 
+var childTmp string
+
 func env() []string {
 	e := os.Environ()
 	e = append(e, "GOFLAGS=-mod=mod", "GOPROXY=off", "GOSUMDB=off", "GOTOOLCHAIN=local")
@@ -175,6 +177,9 @@ func runShard(bin string, p *propCfg, tier string, seed int64, shard, nshards in
 		cmd := exec.Command(bin, args...)
 		cmd.Dir = verifDir
 		e := env()
+		if childTmp != "" {
+			e = append(e, "TMPDIR="+childTmp)
+		}
 		if raceLog != "" {
 			e = append(e, "GORACE=halt_on_error=0 log_path="+raceLog)
 		}
@@ -402,6 +407,12 @@ func main() {
 		phases = append(phases, phase{true, "race"})
 	}
 
+	// Children create scratch files (file-system repositories, report
+	// directories); a crashed child cannot remove its own, so they all live in
+	// one directory that the parent removes.
+	if d, err := os.MkdirTemp("", "verif-"+id+"-"); err == nil {
+		childTmp = d
+	}
 	var all shardResult
 	raceBlocks := 0
 	raceSigs := map[string]string{}
@@ -466,6 +477,9 @@ func main() {
 				raceSigs[k] = v
 			}
 		}
+	}
+	if childTmp != "" {
+		os.RemoveAll(childTmp)
 	}
 	for sig, block := range raceSigs {
 		if len(block) > 6000 {
